@@ -271,6 +271,24 @@ func c05SignerMods() []c05Mod {
 			}
 		}}
 	}
+	// a CA that may not sign CRLs (key usage without cRLSign): whatever carries its name — the CRL it really signed, or one a
+	// foreign key signed — is not an authenticated CRL
+	noCrlSign := func(name, role string, foreign bool) c05Mod {
+		return c05Mod{"signer", "crl-issuer-without-crlsign:" + name, false, func(s *world.Spec, _ *rand.Rand) {
+			s.Cert(role).NoKeyUsageCrlSign = true
+			if foreign {
+				if role == "inter" {
+					s.PckCrl.SignKey = 7
+				} else {
+					for i := range s.RootCrls {
+						s.RootCrls[i].SignKey = 7
+					}
+				}
+			}
+		}}
+	}
+	extra := []c05Mod{noCrlSign("intermediate/pck-crl-genuinely-signed", "inter", false), noCrlSign("intermediate/pck-crl-signed-by-foreign-key", "inter", true),
+		noCrlSign("root/root-crl-genuinely-signed", "root", false), noCrlSign("root/root-crl-signed-by-foreign-key", "root", true)}
 	// the CRL response's own issuer-chain header vouches for nothing: a CRL signed by a foreign CA with the intermediate's
 	// exact DN, served with that foreign CA's certificate in the header (self-signed, or issued by the genuine root's name)
 	hdrFake := func(name string, selfSigned bool) c05Mod {
@@ -329,7 +347,7 @@ func c05SignerMods() []c05Mod {
 			dated("entry-dated-a-year-after-the-verification-time", which, 365*24*time.Hour, false),
 			dated("crl-issuer-name-utf8-encoded", which, -time.Hour, true))
 	}
-	return append(datedMods, []c05Mod{
+	return append(append(datedMods, extra...), []c05Mod{
 		twoRoots, reissued,
 		hdrFake("self-signed", true), hdrFake("signed-by-a-foreign-key", false),
 		pck("other-ca-key(root-signs)", 1, "inter"), pck("foreign-key-same-name", 7, "inter"), pck("right-key-name-of-root", 2, "root"),
